@@ -34,6 +34,25 @@ def mapVia : List Char → List Char → Char → Char
 def lowerC (c : Char) : Char := mapVia uppers lowers c
 def upperC (c : Char) : Char := mapVia lowers uppers c
 
+/-- the cased characters of the Latin-1 range (code points below 256), as CPython's `str.isupper` / `str.islower` class
+them; characters from 256 on are uncased in the model (true of CJK letters; the generators stay below 256 otherwise).
+The tables are compared with `str.isupper()` by the harness (`isupper` lines). -/
+def casedUppers : List Char :=
+  uppers ++ ([192, 193, 194, 195, 196, 197, 198, 199, 200, 201, 202, 203, 204, 205, 206, 207, 208, 209, 210, 211, 212, 213,
+    214, 216, 217, 218, 219, 220, 221, 222].map Char.ofNat)
+def casedLowers : List Char :=
+  lowers ++ ([170, 181, 186, 223, 224, 225, 226, 227, 228, 229, 230, 231, 232, 233, 234, 235, 236, 237, 238, 239, 240, 241,
+    242, 243, 244, 245, 246, 248, 249, 250, 251, 252, 253, 254, 255].map Char.ofNat)
+
+/-- `str.isupper()`: at least one cased character and no lower-case one (digits, `_` … are uncased and allowed) -/
+def pyIsUpper (t : Text) : Bool := t.any (fun c => casedUppers.contains c) && !t.any (fun c => casedLowers.contains c)
+
+/-- `str.startswith(p)` -/
+def startsWith : Text → Text → Bool
+  | [], _ => true
+  | _ :: _, [] => false
+  | a :: as, b :: bs => a == b && startsWith as bs
+
 /-- what `int()` / `float()` skip around a number: as above without the separators FS, GS, RS, US (28–31) -/
 def numSpaces : List Char := [9, 10, 11, 12, 13, 32, 133, 160].map Char.ofNat
 
@@ -187,6 +206,8 @@ structure Desc where
   envNameNorm : List StrOp
   updateRaises : Bool
   updateErr : Err
+  nameTests : List NameTest          -- `config` decorator: the conjuncts deciding which attributes become config values
+  wrappedKeeps : List CVField        -- … and what it carries over from an attribute given as `ConfigValue(...)`
 
 /-- the description generated from the repository's working tree -/
 def src : Desc where
@@ -205,6 +226,8 @@ def src : Desc where
   envNameNorm := Gen.C20.envNameNorm
   updateRaises := Gen.C20.updateRaises
   updateErr := Gen.C20.updateErr
+  nameTests := Gen.C20.nameTests
+  wrappedKeeps := Gen.C20.wrappedKeeps
 
 /-! ### `ConfigValue.env_var` -/
 
@@ -214,6 +237,35 @@ def modulePrefix (m : Text) : Text := (m.map upperC).map (fun c => if c = '.' th
 def envName (d : Desc) (cv : CV) : Text :=
   if cv.envOverride ≠ [] then cv.envOverride
   else (if cv.envPrefix ≠ [] then cv.envPrefix else modulePrefix cv.module) ++ d.envSep ++ applyOps d.envNameNorm cv.name
+
+/-! ### the `config` decorator: which attributes of the decorated class become configuration values -/
+
+def nameTest (n : Text) : NameTest → Bool
+  | .isUpper => pyIsUpper n
+  | .notStartsWith p => !startsWith p n
+
+/-- the `if` of the decorator's loop over `cls.__dict__` -/
+def isConfigName (d : Desc) (n : Text) : Bool := d.nameTests.all (nameTest n)
+
+/-- one attribute of the body of a decorated class: `NAME = default` or `NAME = ConfigValue(default, env_var=…, parser=…)` -/
+structure Attr where
+  name : Text
+  default : V
+  ty : Ty
+  parser : Option Nat        -- only for attributes given as `ConfigValue(...)`
+  envOverride : Text         -- ditto
+  deriving Repr
+
+/-- what the decorator `config(pre)` makes of one attribute of class `c` (metaclass created in module `m`):
+a descriptor when the name passes the test, nothing (the attribute stays a plain class attribute) otherwise -/
+def decorate1 (d : Desc) (c : Nat) (pre m : Text) (a : Attr) : Option CV :=
+  if isConfigName d a.name then
+    some ⟨c, a.name, a.default, a.ty, if d.wrappedKeeps.contains .parser then a.parser else none,
+      if d.wrappedKeeps.contains .envVar then a.envOverride else [], pre, m⟩
+  else none
+
+/-- the declarations the decorator creates for the body `attrs` -/
+def decorate (d : Desc) (c : Nat) (pre m : Text) (attrs : List Attr) : List CV := attrs.filterMap (decorate1 d c pre m)
 
 /-! ### `ConfigValue.parse` -/
 
